@@ -207,12 +207,12 @@ func findSwitchOn(fd *ast.FuncDecl, tagSuffix string) *ast.SwitchStmt {
 
 func checkC03(c *Ctx) {
 	c.Rule("R3.1", "pack/unpack agreement per FieldType: slot, type, lossless chain, encoder parameter type; exhaustive arms, default panics", 50)
-	c.Rule("R3.2", "pointer constructors: nilField under nil, value constructor of the pointee type otherwise", 19)
-	c.Rule("R3.3", "zap.Any: case type = asserted type = constructor parameter type; no shadowing; interface order; coverage", 130)
-	c.Rule("R3.4", "slice wrappers: no-copy conversion; every element appended through the Append method of the element type", 50)
-	c.Rule("R3.5", "time split: int64-nanosecond form only inside the representable range, with its location", 4)
-	c.Rule("R3.6", "nil error is skipped; Error uses the key \"error\"", 3)
-	c.Rule("R3.7", "Field.Equals: every == is reachable only for field types with a statically comparable Interface payload", 3)
+	c.Rule("R3.2", "pointer constructors: nilField under nil, value constructor of the pointee type otherwise", 12)
+	c.Rule("R3.3", "zap.Any: case type = asserted type = constructor parameter type; no shadowing; interface order; coverage", 86)
+	c.Rule("R3.4", "slice wrappers: no-copy conversion; every element appended through the Append method of the element type", 41)
+	c.Rule("R3.5", "time split: int64-nanosecond form only inside the representable range, with its location", 3)
+	c.Rule("R3.6", "nil error is skipped; Error uses the key \"error\"", 2)
+	c.Rule("R3.7", "Field.Equals: every == is reachable only for field types with a statically comparable Interface payload", 2)
 
 	field := c.fieldNamed()
 	ftNamed := c.Named(CorePath, "FieldType")
